@@ -326,6 +326,11 @@ pub fn analyze(
                     context.skip = true;
                     skipped += 1;
                 }
+                // Its pass2 never runs, so its pass1 fragment must not vouch
+                // for it on a later warm run.
+                if let Some(x) = incremental.as_mut() {
+                    x.invalidate(&context.path.src);
+                }
                 filelist_excluded.insert(context.path.src.clone());
             }
         }
